@@ -874,6 +874,31 @@ def c32(idx: Index, rep: Report, tier: str) -> None:
     rep.require_min(rule_k, "kind_parameters", 8)
 
 
+# ------------------------------------------------------------------------------------ C34
+def c34(idx: Index, rep: Report, tier: str) -> None:
+    """The order a network reports is always what the analysis of *all* its temporal constraints gives: every answer
+    other than None that total_order / partial_order return is derived from the value of self._ordering()."""
+    rule = "C34.5 def-use answers-derive-from-the-constraint-analysis"
+    base = idx.cls("model.htn.task_network.AbstractTaskNetwork")
+    n = 0
+    for ci in [base] + idx.subclasses(base):
+        for m in ("total_order", "partial_order"):
+            f = ci.methods.get(m)
+            if f is None:
+                continue
+            cfg = cfg_of(f)
+            du = DefUse(cfg)
+            for nd in cfg.nodes:
+                if nd.kind != "return" or nd.ast.value is None or (isinstance(nd.ast.value, ast.Constant) and nd.ast.value.value is None):
+                    continue
+                n += 1
+                src = du.sources(nd.ast.value, nd)
+                ok = any(len(c) >= 2 and c[0] == "self" and c[1].rstrip("()") == "_ordering" for c in src) or (ci is not base and any(c[:1] == ("super()",) or "super" in c[0] for c in src))
+                rep.check(ok, rule, f"{m} answers with what the analysis of the temporal constraints found", f.loc(nd.ast), construct=norm(nd.ast)[:90] + ("" if ok else " — not derived from self._ordering()"), detail="" if ok else "an order is reported without looking at the temporal constraints: a network with a release date, a minimal duration or a self precedence on its only subtask reports a total order although `any other kind of temporal constraint reports neither`", function=f.qualname)
+    rep.count("order_answers", n)
+    rep.require_min(rule, "order_answers", 2)
+
+
 # ------------------------------------------------------------------------------------ C36
 def c36(idx: Index, rep: Report, tier: str) -> None:
     """Condensation = merge the whole chain (youngest value wins), *then* drop default-valued entries. A value merged
@@ -987,6 +1012,104 @@ def c38(idx: Index, rep: Report, tier: str) -> None:
             rep.check(ok, rule5, f"{f.short}: the pattern has to match the whole name", f.loc(c), construct=f"{c.args[0].value!r}: " + ("anchored" if ok else "matches a prefix only"), detail="" if ok else "a name that only *starts* like an identifier (`at-home`, `x y`) is accepted as valid and written verbatim: the output contains an invalid identifier", function=f.qualname)
     rep.count("validity_patterns", k)
     rep.require_min(rule5, "validity_patterns", 1)
+
+    # (c) a conditional keyword set is reserved whenever the writer can emit that syntax: the condition of the
+    # reservation talks about the same model elements as the conditions under which the syntax is written
+    rule6 = "C38.6 sibling keyword-reservation-agrees-with-emission"
+    wm = idx.module("io.pddl_writer")
+    W = idx.cls("io.pddl_writer.PDDLWriter")
+    ksets = {}
+    for name, val in wm.assigns.items():
+        if name.endswith("_KEYWORDS"):
+            try:
+                ksets[name] = set(ast.literal_eval(val))
+            except ValueError:
+                pass
+
+    def vocab(exprs):
+        v = set()
+        for e in exprs:
+            for x in ast.walk(e):
+                if isinstance(x, ast.Call) and call_name(x) == "isinstance" and len(x.args) == 2:
+                    for cnode in (x.args[1].elts if isinstance(x.args[1], ast.Tuple) else [x.args[1]]):
+                        v.add(norm(cnode).split(".")[-1])
+                if isinstance(x, ast.Attribute) and norm(x.value) in ("self.problem", "self._problem", "problem"):
+                    v.add("." + x.attr)
+        return v
+
+    def enclosing_conditions(fn, target):
+        out = []
+
+        def rec(stmts, acc):
+            for st in stmts:
+                if any(y is target for y in ast.walk(st)):
+                    if isinstance(st, ast.If):
+                        if any(y is target for b in st.body for y in ast.walk(b)):
+                            rec(st.body, acc + [st.test])
+                        else:
+                            rec(st.orelse, acc)
+                    elif isinstance(st, (ast.For, ast.While)):
+                        rec(st.body + st.orelse, acc + [st.iter if isinstance(st, ast.For) else st.test])
+                    elif isinstance(st, (ast.With, ast.Try)):
+                        rec([y for y in ast.iter_child_nodes(st) if isinstance(y, ast.stmt)] + [z for h in getattr(st, "handlers", []) for z in h.body], acc)
+                    else:
+                        out.append(acc)
+                    return
+        rec(fn.body, [])
+        return out[0] if out else []
+
+    init = W.methods["__init__"]
+    reservations = {}
+    for i in walk_no_nested(init.node):
+        if isinstance(i, ast.If):
+            for a in i.body:
+                if isinstance(a, ast.AugAssign) and isinstance(a.op, ast.BitOr) and isinstance(a.value, ast.Name) and a.value.id in ksets and "keywords" in norm(a.target):
+                    reservations[a.value.id] = i
+    n6 = 0
+    for kname, guard in sorted(reservations.items()):
+        vt = vocab([guard.test])
+        for f in W.methods.values():
+            for c in walk_no_nested(f.node):
+                if not (isinstance(c, ast.Call) and call_name(c) == "write" and c.args):
+                    continue
+                text = " ".join(str_consts(c.args[0]))
+                kws = sorted(k for k in ksets[kname] if f":{k} " in text + " " or f"({k} " in text + " " or f"(:{k} " in text + " ")
+                if not kws:
+                    continue
+                ve = vocab(enclosing_conditions(f.node, c))
+                if not ve:
+                    continue
+                n6 += 1
+                ok = bool(vt & ve)
+                rep.check(ok, rule6, f"`{kws[0]}` is reserved under a condition on what makes the writer emit it", init.loc(guard), construct=f"{kname} reserved if {norm(guard.test)[:70]}; `{kws[0]}` written in {f.name} under {sorted(ve)}", detail="" if ok else f"the writer emits `{kws[0]}` for {sorted(ve)} but decides to reserve the word from something else: there are problems for which the syntax is written and the word is not reserved, so a fluent, object or action with that name is written verbatim and collides with the keyword", function=init.qualname)
+    rep.count("keyword_emissions", n6)
+    rep.require_min(rule6, "keyword_emissions", 4)
+
+    # (d) the two renaming tables live as long as the writer: a name handed out once (domain, problem or plan, in any
+    # order) is the name of that element for good
+    rule7 = "C38.7 who-may-write renaming-tables-bound-once"
+    n7 = 0
+    for cq, fields in (("io.pddl_writer.PDDLWriter", ("otn_renamings", "nto_renamings")), ("io.ma_pddl_writer.MAPDDLWriter", ("otn_renamings", "nto_renamings")), ("io.anml_writer.ANMLWriter", ())):
+        ci = idx.cls(cq)
+        for f in ci.methods.values():
+            for a in walk_no_nested(f.node):
+                hit = None
+                if isinstance(a, (ast.Assign, ast.AnnAssign)):
+                    tgs = a.targets if isinstance(a, ast.Assign) else [a.target]
+                    for t in tgs:
+                        if isinstance(t, ast.Attribute) and norm(t.value) == "self" and t.attr in fields:
+                            hit = t.attr
+                elif isinstance(a, ast.Call) and isinstance(a.func, ast.Attribute) and a.func.attr in ("clear", "pop", "popitem") and isinstance(a.func.value, ast.Attribute) and norm(a.func.value.value) == "self" and a.func.value.attr in fields:
+                    hit = a.func.value.attr
+                elif isinstance(a, ast.Delete) and any(isinstance(t, ast.Subscript) and isinstance(t.value, ast.Attribute) and t.value.attr in fields for t in a.targets):
+                    hit = "del"
+                if hit is None:
+                    continue
+                n7 += 1
+                ok = f.name == "__init__"
+                rep.check(ok, rule7, f"self.{hit} is created in the constructor and only ever extended", f.loc(a), construct=f"{f.name}: {norm(a)[:70]}", detail="" if ok else "the renaming tables are emptied or replaced after names may already have been handed out: a problem file or plan written earlier uses names the writer no longer knows (get_item_named raises or returns another element) and get_pddl_name / get_item_named stop being inverses over the writer's history", function=f.qualname)
+    rep.count("renaming_table_bindings", n7)
+    rep.require_min(rule7, "renaming_table_bindings", 2)
 
 
 # ------------------------------------------------------------------------------------ C35
@@ -2191,7 +2314,7 @@ def c23(idx: Index, rep: Report, tier: str) -> None:
         raise AnalysisError(f"{rule}: positive fixture no longer matches")
 
 
-EXTRA3 = {"C22": c22, "C23": c23, "C24": c24, "C14": c14, "C16": c16, "C15": c15, "C09": c09, "C13": c13, "C07": c07, "C12": c12, "C11": c11, "C10": c10, "C06": c06, "C04": c04, "C05": c05, "C01": c01, "C02": c02, "C03": c03, "C08": c08, "C35": c35, "C38": c38, "C36": c36, "C32": c32, "C33": c33, "C31": c31, "C17": c17, "C25": c25, "C20": c20, "C27": c27, "C28": c28}
+EXTRA3 = {"C34": c34, "C22": c22, "C23": c23, "C24": c24, "C14": c14, "C16": c16, "C15": c15, "C09": c09, "C13": c13, "C07": c07, "C12": c12, "C11": c11, "C10": c10, "C06": c06, "C04": c04, "C05": c05, "C01": c01, "C02": c02, "C03": c03, "C08": c08, "C35": c35, "C38": c38, "C36": c36, "C32": c32, "C33": c33, "C31": c31, "C17": c17, "C25": c25, "C20": c20, "C27": c27, "C28": c28}
 
 
 def run_extra3(prop: str, idx: Index, rep: Report, tier: str) -> None:
